@@ -208,8 +208,10 @@ pub struct KeyId(String);
 impl KeyId {
     /// Return the first 8 hex digits of the key id
     pub fn prefix(&self) -> String {
-        assert!(self.0.len() >= 8);
-        self.0[0..8].to_string()
+        // A key id read from (unverified) metadata is only known to be 64
+        // bytes long; it need not be hexadecimal or even ASCII, so it must
+        // not be sliced at a fixed byte offset.
+        self.0.chars().take(8).collect()
     }
 }
 
